@@ -1053,3 +1053,214 @@ func a0(c *ssa.Call) string {
 	_, n := calleeName(&c.Call)
 	return n
 }
+
+// signBytesAreWholeContent (C15.6): the sign bytes handed to signers and verifiers are everything
+// the scheme wrote. Either the helpers in tmconsensus return the whole buffer (today), or, if they
+// cut it by the count the scheme reports, every write of the shipped scheme must be added into the
+// count it returns on success — otherwise a trailing section (the proposal annotations) silently
+// drops out of what is signed, and two proposals differing only there share their sign bytes.
+func signBytesAreWholeContent(r *Run, rule string) {
+	w := r.W
+	var cut ssa.Instruction
+	var cutFn *ssa.Function
+	nBytes := 0
+	for _, fn := range w.AllFuncs {
+		if !w.IsProd(fn) || fn.Blocks == nil || pkgPathOf(fn) != "github.com/gordian-engine/gordian/tm/tmconsensus" {
+			continue
+		}
+		for _, b := range fn.Blocks {
+			for _, in := range b.Instrs {
+				c, ok := in.(*ssa.Call)
+				if !ok {
+					continue
+				}
+				if _, n := calleeName(&c.Call); n != "bytes.Buffer.Bytes" {
+					continue
+				}
+				nBytes++
+				for v := range sliceAliases(c) {
+					if sl, ok := v.(*ssa.Slice); ok && (sl.High != nil || sl.Low != nil) {
+						cut, cutFn = sl, fn
+					}
+				}
+			}
+		}
+	}
+	if nBytes == 0 {
+		r.Fail(rule, "tmconsensus(sign-bytes-helpers)", "", "no buffer read-out found in the sign-bytes helpers")
+		return
+	}
+	if cut == nil {
+		r.Pass(rule, "tmconsensus(sign-bytes-helpers)", "", fmt.Sprintf("%d buffer read-outs, none cut by a count: the sign bytes are the whole written content", nBytes))
+		return
+	}
+	// the helpers cut the content: the scheme's reported count must be exact
+	allExact := true
+	for _, mname := range []string{"WriteProposalSigningContent", "WritePrevoteSigningContent", "WritePrecommitSigningContent"} {
+		fn := w.Fn("tmconsensustest.SimpleSignatureScheme." + mname)
+		if fn == nil {
+			continue
+		}
+		a := w.A(fn)
+		for _, wr := range fmtWrites(a) {
+			wv, ok := wr.(ssa.Value)
+			if !ok {
+				continue
+			}
+			for _, ret := range a.Returns() {
+				if !ReachesAfter(wr, ret) && wr.Block() != ret.Block() {
+					continue
+				}
+				if len(ret.Results) != 2 {
+					continue
+				}
+				if c, isC := ret.Results[1].(*ssa.Const); !isC || !c.IsNil() {
+					continue // error return
+				}
+				// count closure of the returned value
+				seen := map[ssa.Value]bool{}
+				var walk func(v ssa.Value) bool
+				walk = func(v ssa.Value) bool {
+					if seen[v] {
+						return false
+					}
+					seen[v] = true
+					switch x := v.(type) {
+					case *ssa.Extract:
+						return x.Tuple == wv && x.Index == 0
+					case *ssa.Phi:
+						for _, e := range x.Edges {
+							if walk(e) {
+								return true
+							}
+						}
+					case *ssa.BinOp:
+						if x.Op == token.ADD {
+							return walk(x.X) || walk(x.Y)
+						}
+					case *ssa.UnOp:
+						if x.Op == token.MUL {
+							if rs := reachingStore(x); rs != nil {
+								return walk(rs)
+							}
+						}
+					}
+					return false
+				}
+				// direct `return fmt.Fprintf(...)`: the tuple itself is returned
+				direct := false
+				if ex, ok := ret.Results[0].(*ssa.Extract); ok && ex.Tuple == wv {
+					direct = true
+				}
+				if !direct && !walk(ret.Results[0]) {
+					allExact = false
+					r.Fail(rule, "tmconsensustest.SimpleSignatureScheme."+mname+"(count)", w.InstrPos(wr),
+						"the sign-bytes helpers cut the content at the count the scheme reports ("+w.InstrPos(cut)+" in "+FuncName(topParent(cutFn))+"), but this write's byte count is not added into the count returned on success: the section it writes is not signed")
+				}
+			}
+		}
+	}
+	if allExact {
+		r.Pass(rule, "tmconsensus(sign-bytes-helpers)", w.InstrPos(cut), "content cut at the scheme's count; every write of the shipped scheme is counted")
+	}
+}
+
+// exactIndexArithmetic (C13.8): the combination index of a finalized BLS proof is computed in
+// arbitrary precision. A machine-word product or shift feeding a big.Int (SetUint64 / SetInt64 /
+// NewInt) can wrap for key-set sizes no shipped test uses, after which encode and decode disagree
+// and a validly finalized proof no longer validates back to its signers. Word-sized additions and
+// subtractions of indices (bounded by the key count) are fine; a product is accepted only behind
+// an explicit overflow test on its operands (x > max/y form) or when computed by math/bits.
+func exactIndexArithmetic(r *Run, rule string) {
+	w := r.W
+	sinks, bad := 0, 0
+	for _, fn := range w.FuncsInPkg("gcrypto/gblsminsig") {
+		if !w.IsProd(fn) || fn.Blocks == nil {
+			continue
+		}
+		a := w.A(fn)
+		k := 0
+		for _, b := range fn.Blocks {
+			for _, in := range b.Instrs {
+				c, ok := in.(*ssa.Call)
+				if !ok {
+					continue
+				}
+				_, n := calleeName(&c.Call)
+				var args []ssa.Value
+				switch n {
+				case "big.Int.SetUint64", "big.Int.SetInt64":
+					args = c.Call.Args[1:]
+				case "big.NewInt":
+					args = c.Call.Args
+				default:
+					continue
+				}
+				sinks++
+				for _, arg := range args {
+					var off *ssa.BinOp
+					seen := map[ssa.Value]bool{}
+					var walk func(v ssa.Value)
+					walk = func(v ssa.Value) {
+						if v == nil || seen[v] || off != nil {
+							return
+						}
+						seen[v] = true
+						switch x := v.(type) {
+						case *ssa.BinOp:
+							if x.Op == token.MUL || x.Op == token.SHL {
+								if _, cx := x.X.(*ssa.Const); cx {
+									if _, cy := x.Y.(*ssa.Const); cy {
+										return
+									}
+								}
+								off = x
+								return
+							}
+							walk(x.X)
+							walk(x.Y)
+						case *ssa.Phi:
+							for _, e := range x.Edges {
+								walk(e)
+							}
+						case *ssa.Convert:
+							walk(x.X)
+						case *ssa.ChangeType:
+							walk(x.X)
+						case *ssa.UnOp:
+							if x.Op == token.MUL {
+								if rs := reachingStore(x); rs != nil {
+									walk(rs)
+								}
+							} else {
+								walk(x.X)
+							}
+						}
+					}
+					walk(arg)
+					if off == nil {
+						continue
+					}
+					// accepted: an overflow test of the form (x > C / y) guards the product
+					guarded := false
+					a.Instrs(func(gi ssa.Instruction) {
+						if ifi, ok := gi.(*ssa.If); ok {
+							s := a.sh.Of(ifi.Cond).String()
+							if strings.Contains(s, " / ") && (strings.Contains(s, "18446744073709551615") || strings.Contains(s, "9223372036854775807") || strings.Contains(s, "math.Max")) && Dominates(ifi, off) {
+								guarded = true
+							}
+						}
+					})
+					if guarded {
+						continue
+					}
+					k++
+					bad++
+					r.Fail(rule, fmt.Sprintf("%s#word-product%d", FuncName(topParent(fn)), k), w.InstrPos(off),
+						"a machine-word product/shift ("+truncate(a.sh.Of(off).String(), 80)+") feeds a big.Int of the combination-index arithmetic without an overflow test; it wraps for mid-sized key sets (e.g. C(n,k)*k beyond 2^64 for n >= 63)")
+				}
+			}
+		}
+	}
+	r.Check(sinks > 0, rule, "census", "", fmt.Sprintf("%d word-to-big.Int conversions in gblsminsig, %d fed by an unguarded machine-word product", sinks, bad))
+}
